@@ -168,6 +168,32 @@ func gateArrive(key string, d time.Duration) *ticket {
 }
 
 // gateArriveAny waits for an arrival at any of the keys.
+// gateClose removes one gate: whoever is parked there goes on and later arrivals pass straight through.
+func gateClose(key string) {
+	hk.mu.Lock()
+	g := hk.gates[key]
+	delete(hk.gates, key)
+	hk.mu.Unlock()
+	if g != nil {
+		close(g.closed)
+	}
+}
+
+// gateArriveSeg waits for an arrival at key whose "segkey" is want (any if want is empty); other arrivals are let go.
+func gateArriveSeg(key, want string, d time.Duration) *ticket {
+	deadline := time.Now().Add(d)
+	for {
+		t := gateArrive(key, time.Until(deadline))
+		if t == nil {
+			return nil
+		}
+		if want == "" || fmt.Sprint(t.kv["segkey"]) == want {
+			return t
+		}
+		t.letGo()
+	}
+}
+
 func gateArriveAny(keys []string, d time.Duration) *ticket {
 	hk.mu.Lock()
 	var gs []*gate
